@@ -4,6 +4,7 @@ go 1.25.0
 
 require (
 	cuelang.org/go v0.0.0
+	golang.org/x/mod v0.38.0
 	pgregory.net/rapid v1.3.0
 )
 
